@@ -115,6 +115,14 @@ def bisect(ctx, rep):
             continue
         base_neg = isinstance(s, ast.If)  # `if bad: raise` : the test must be false to continue
         for c in ast.walk(s.test):
+            if isinstance(c, ast.Compare) and len(c.ops) == 1 and isinstance(c.left, ast.Name) and const_value(c.comparators[0]) in (0, 0.0):
+                # `fmin = f(xmin); assert (fmin <= 0).all()`: the compared name stands for the call it was bound to (bound once, before the loop)
+                from ..idioms import single_def as _sd1
+                d_ = _sd1(fn.node, c.left.id)
+                if isinstance(d_, ast.Call) and isinstance(d_.func, ast.Name) and d_.func.id == fp_:
+                    c2_ = ast.copy_location(ast.Compare(left=d_, ops=c.ops, comparators=c.comparators), c)
+                    c2_._parent = getattr(c, '_parent', None)
+                    c = c2_
             if isinstance(c, ast.Compare) and len(c.ops) == 1 and isinstance(c.left, ast.Call) and isinstance(c.left.func, ast.Name) \
                     and c.left.func.id == fp_ and c.left.args and isinstance(c.left.args[0], ast.Name) and c.left.args[0].id in al_ \
                     and const_value(c.comparators[0]) in (0, 0.0):
